@@ -52,8 +52,23 @@ def _rebuild_user_contract(kind, mult, mreq, symbol):
     return _user_contract_class(kind, mult, mreq)(symbol)
 
 
+class UN(C.Future):
+    """A user-defined monthly future (the documented extension point: subclass Future) that stops trading at
+    noon of the 15th of its month - an intraday cut-off, unlike the built-in calendars which all end at midnight -
+    and expires on the 20th."""
+    multiplier = 10.0
+    margin_requirement = 0.1
+    freq = "ME"
+
+    def _get_expiry_date(self, year, month):
+        return datetime(year, month, 20)
+
+    def _get_last_trading_date(self, expiry):
+        return datetime(expiry.year, expiry.month, 15, 12, 0)
+
+
 FUTURE_CLASSES = {"ES": C.ES, "NK": C.NK, "ZN": C.ZN, "ZB": C.ZB, "ZF": C.ZF,
-                  "ZT": C.ZT, "ZQ": C.ZQ, "VX": C.VX}
+                  "ZT": C.ZT, "ZQ": C.ZQ, "VX": C.VX, "UN": UN}
 ASSET_CLASSES = {"ETF": C.ETF, "Stock": C.Stock, "Index": C.Index, "Asset": C.Asset}
 
 
@@ -96,7 +111,7 @@ def contract_params(spec, contract=None):
         return float(spec.get("mult", 1.0)), 0.0, float(spec["mreq"])
     if kind in ("future", "chain"):
         table = {"ES": (50.0, 0.1), "NK": (5.0, 0.3), "ZN": (1000.0, 0.03), "ZB": (1000.0, 0.05),
-                 "ZF": (1000.0, 0.02), "ZT": (2000.0, 0.02), "ZQ": (4167.0, 0.004), "VX": (1000.0, 0.5)}
+                 "ZF": (1000.0, 0.02), "ZT": (2000.0, 0.02), "ZQ": (4167.0, 0.004), "VX": (1000.0, 0.5), "UN": (10.0, 0.1)}
         m, r = table[spec["cls"]]
         return m, 0.0, r
     raise ValueError(kind)
